@@ -58,6 +58,7 @@ class Ctx:
         self.known = known or []  # active known findings: list of (id, clause, predicate)
         self.evaluations = 0
         self.nontrivial = set()
+        self.nontrivial_enumerated = 0
         self.classes = collections.Counter()
         self.rejected = collections.Counter()
         self.excluded_known = collections.Counter()
@@ -78,7 +79,7 @@ class Ctx:
             return True
         return self.out_of_time()
 
-    def count(self, case, nontrivial, classes=(), n=1, sample=None, stratum=""):
+    def count(self, case, nontrivial, classes=(), n=1, sample=None, stratum="", distinct=False):
         """Register one judged case.  ``case`` identifies it (distinctness), ``sample`` is what is
         written out if the case is drawn as an evidence sample (defaults to the case itself)."""
         self.evaluations += n
@@ -86,8 +87,16 @@ class Ctx:
             self.classes[c] += 1
         if nontrivial:
             d = digest(case)
-            if d not in self.nontrivial:
-                self.nontrivial.add(d)
+            if distinct:
+                # enumerated domains: the caller guarantees that every case is counted once, so a counter
+                # replaces the set of digests (tens of millions of strings in the thorough tiers)
+                self.nontrivial_enumerated += 1
+                fresh = True
+            else:
+                fresh = d not in self.nontrivial
+                if fresh:
+                    self.nontrivial.add(d)
+            if fresh:
                 s = canon(case if sample is None else sample)
                 rank = int.from_bytes(d, "big")
                 heap = self.samples.setdefault(stratum, [])
@@ -127,6 +136,7 @@ class Ctx:
         return {
             "evaluations": self.evaluations,
             "nontrivial": self.nontrivial,
+            "nontrivial_enumerated": self.nontrivial_enumerated,
             "classes": self.classes,
             "rejected": self.rejected,
             "excluded_known": self.excluded_known,
@@ -140,6 +150,7 @@ class Ctx:
     def merge(self, d):
         self.evaluations += d["evaluations"]
         self.nontrivial |= d["nontrivial"]
+        self.nontrivial_enumerated += d["nontrivial_enumerated"]
         self.classes.update(d["classes"])
         self.rejected.update(d["rejected"])
         self.excluded_known.update(d["excluded_known"])
